@@ -3,30 +3,30 @@
     k_rg_generate / k_rg_origins / k_rg_z_offset / k_dist_...: kernels regenerated from optiland/rays/ray_generator.py and
     optiland/distribution.py on every run.  Arguments of k_rg_generate: Hx Hy Px Py wavelength vig_x vig_y max_field
     object_is_infinite field_type telecentric EPL EPD positions object_radius object_conic object_z aperture_type
-    aperture_value polarization uses_polarization.  r_x .. r_w project the returned ray (x y z L M N intensity wavelength);
-    offset EPD pos = k_rg_z_offset ROps pos EPD (launch plane distance); tanx Hx mf = tan(deg(mf*Hx)), tany Hy mf likewise. *)
+    object_space_index aperture_value polarization uses_polarization.  r_x .. r_w project the returned ray (x y z L M N intensity wavelength);
+    offset EPL EPD pos = k_rg_z_offset ROps pos EPD EPL (launch plane distance), zmin pos = min of positions[1:-1]; tanx Hx mf = tan(deg(mf*Hx)), tany Hy mf likewise. *)
 From Coq Require Import Reals ZArith List String.
 From OV Require Import Ops RInst XR OpsC03 OpsC18 Gen.Standard Gen.RayGen Gen.Distrib Spec.S_C03 Model.M_C03 Lemmas.L_C03_table Lemmas.L_C03_launch Lemmas.L_C03_dist Lemmas.L_C03_vig Lemmas.L_C03_all.
 Local Open Scope R_scope.
 Import ListNotations.
 
 Theorem C03_rejection_table :
-  forall (O : Ops) (Hx Hy Px Py w v0 v1 mf EPL EPD objR objk objz apv : T O)
+  forall (O : Ops) (Hx Hy Px Py w v0 v1 mf EPL EPD objR objk objz n0 apv : T O)
          (pos : list (T O)) (inf tele upol : bool) (ft ap pol : string),
        In ft field_types ->
        In ap aperture_types ->
        is_none
-         (k_rg_generate O Hx Hy Px Py w v0 v1 mf inf ft tele EPL EPD pos objR objk objz ap apv pol
-            upol) = (rejected inf ft tele ap || pol_rejected pol upol)%bool.
+         (k_rg_generate O Hx Hy Px Py w v0 v1 mf inf ft tele EPL EPD pos objR objk objz ap n0 apv
+            pol upol) = (rejected inf ft tele ap || pol_rejected pol upol)%bool.
 Proof. exact rejection_table. Qed.
 Print Assumptions C03_rejection_table.
 
 Theorem C03_unknown_field_type_rejected :
-  forall (O : Ops) (Hx Hy Px Py w v0 v1 mf EPL EPD objR objk objz apv : T O)
+  forall (O : Ops) (Hx Hy Px Py w v0 v1 mf EPL EPD objR objk objz n0 apv : T O)
          (pos : list (T O)) (inf tele upol : bool) (ft ap pol : string),
        (ft =? "angle")%string = false ->
        (ft =? "object_height")%string = false ->
-       k_rg_generate O Hx Hy Px Py w v0 v1 mf inf ft tele EPL EPD pos objR objk objz ap apv pol
+       k_rg_generate O Hx Hy Px Py w v0 v1 mf inf ft tele EPL EPD pos objR objk objz ap n0 apv pol
          upol = None \/ inf = true /\ tele = false.
 Proof. exact unknown_field_type_rejected. Qed.
 Print Assumptions C03_unknown_field_type_rejected.
@@ -38,16 +38,16 @@ Theorem C03_cell_count :
             (fun c : bool * string * bool * string =>
              let (y, ap) := c in
              let (y0, tele) := y in let (inf, ft) := y0 in negb (rejected inf ft tele ap)) cells) =
-       10%nat.
+       9%nat.
 Proof. exact cell_count. Qed.
 Print Assumptions C03_cell_count.
 
 Theorem C03_launch_aim_point :
-  forall (Hx Hy Px Py w v0 v1 mf EPL EPD objR objk objz apv : R) (pos : list R)
-         (ap pol : string) (upol inf : bool) (ft : string)
+  forall (Hx Hy Px Py w v0 v1 mf EPL EPD objR objk objz n0 apv : R) 
+         (pos : list R) (ap pol : string) (upol inf : bool) (ft : string)
          (r : T ROps * T ROps * T ROps * T ROps * T ROps * T ROps * T ROps * T ROps),
-       k_rg_generate ROps Hx Hy Px Py w v0 v1 mf inf ft false EPL EPD pos objR objk objz ap apv pol
-         upol = Some r ->
+       k_rg_generate ROps Hx Hy Px Py w v0 v1 mf inf ft false EPL EPD pos objR objk objz ap n0 apv
+         pol upol = Some r ->
        let ax := (Px * (1 - v0) * EPD / 2)%R in
        let ay := (Py * (1 - v1) * EPD / 2)%R in
        ((ax - r_x r) * (ax - r_x r) + (ay - r_y r) * (ay - r_y r) + (EPL - r_z r) * (EPL - r_z r))%R <>
@@ -62,52 +62,49 @@ Proof. exact launch_aim_point. Qed.
 Print Assumptions C03_launch_aim_point.
 
 Theorem C03_launch_finite_height :
-  forall (Hx Hy Px Py w v0 v1 mf EPL EPD objR objk objz apv : R) (pos : list R)
-         (ap pol : string) (upol : bool)
+  forall (Hx Hy Px Py w v0 v1 mf EPL EPD objR objk objz n0 apv : R) 
+         (pos : list R) (ap pol : string) (upol : bool)
          (r : T ROps * T ROps * T ROps * T ROps * T ROps * T ROps * T ROps * T ROps),
        k_rg_generate ROps Hx Hy Px Py w v0 v1 mf false "object_height" false EPL EPD pos objR objk
-         objz ap apv pol upol = Some r ->
+         objz ap n0 apv pol upol = Some r ->
        r_x r = (mf * Hx)%R /\
        r_y r = (mf * Hy)%R /\ r_z r = (k_std_sag ROps (mf * Hx) (mf * Hy) objR objk + objz)%R.
 Proof. exact launch_finite_height. Qed.
 Print Assumptions C03_launch_finite_height.
 
 Theorem C03_launch_infinite_angle :
-  forall (Hx Hy Px Py w v0 v1 mf EPL EPD objR objk objz apv : R) (pos : list R)
-         (ap pol : string) (upol : bool)
+  forall (Hx Hy Px Py w v0 v1 mf EPL EPD objR objk objz n0 apv : R) 
+         (pos : list R) (ap pol : string) (upol : bool)
          (r : T ROps * T ROps * T ROps * T ROps * T ROps * T ROps * T ROps * T ROps),
        k_rg_generate ROps Hx Hy Px Py w v0 v1 mf true "angle" false EPL EPD pos objR objk objz ap
-         apv pol upol = Some r ->
+         n0 apv pol upol = Some r ->
        getZ (O := ROps) pos 1%Z = 0%R ->
-       (offset EPD pos + EPL)%R <> 0%R ->
+       (0 < EPD)%R ->
        r_M r = (r_N r * tany Hy mf)%R /\
        r_L r = (- (r_N r * tanx Hx mf))%R /\
-       r_N r <> 0%R /\
-       r_z r = (- offset EPD pos)%R /\
-       ((0 < offset EPD pos + EPL)%R -> (0 < r_N r)%R) /\
-       ((offset EPD pos + EPL < 0)%R -> (r_N r < 0)%R).
+       (0 < r_N r)%R /\
+       r_z r = (- offset EPL EPD pos)%R /\ (r_z r + EPD <= EPL)%R /\ (r_z r + EPD <= zmin pos)%R.
 Proof. exact launch_infinite_angle. Qed.
 Print Assumptions C03_launch_infinite_angle.
 
 Theorem C03_launch_infinite_parallel :
-  forall (Hx Hy w mf EPL EPD objR objk objz apv : T ROps) (pos : list (T ROps))
+  forall (Hx Hy w mf EPL EPD objR objk objz n0 apv : T ROps) (pos : list (T ROps))
          (ap pol : string) (upol : bool) (Px Py v0 v1 Px' Py' v0' v1' : T ROps)
          (r r' : T ROps * T ROps * T ROps * T ROps * T ROps * T ROps * T ROps * T ROps),
        k_rg_generate ROps Hx Hy Px Py w v0 v1 mf true "angle" false EPL EPD pos objR objk objz ap
-         apv pol upol = Some r ->
+         n0 apv pol upol = Some r ->
        k_rg_generate ROps Hx Hy Px' Py' w v0' v1' mf true "angle" false EPL EPD pos objR objk objz
-         ap apv pol upol = Some r' ->
-       getZ (O := ROps) pos 1%Z = 0%R ->
-       (offset EPD pos + EPL)%R <> 0%R -> r_L r = r_L r' /\ r_M r = r_M r' /\ r_N r = r_N r'.
+         ap n0 apv pol upol = Some r' ->
+       getZ (O := ROps) pos 1%Z = 0%R -> (0 < EPD)%R -> r_L r = r_L r' /\ r_M r = r_M r' /\ r_N r = r_N r'.
 Proof. exact launch_infinite_parallel. Qed.
 Print Assumptions C03_launch_infinite_parallel.
 
 Theorem C03_launch_finite_angle :
-  forall (Hx Hy Px Py w v0 v1 mf EPL EPD objR objk objz apv : R) (pos : list R)
-         (ap pol : string) (upol : bool)
+  forall (Hx Hy Px Py w v0 v1 mf EPL EPD objR objk objz n0 apv : R) 
+         (pos : list R) (ap pol : string) (upol : bool)
          (r : T ROps * T ROps * T ROps * T ROps * T ROps * T ROps * T ROps * T ROps),
        k_rg_generate ROps Hx Hy Px Py w v0 v1 mf false "angle" false EPL EPD pos objR objk objz ap
-         apv pol upol = Some r ->
+         n0 apv pol upol = Some r ->
        let z0 := getZ (O := ROps) pos 0%Z in
        r_z r = z0 /\
        r_y r = (- tany Hy mf * (EPL - z0))%R /\
@@ -121,12 +118,12 @@ Proof. exact launch_finite_angle. Qed.
 Print Assumptions C03_launch_finite_angle.
 
 Theorem C03_launch_telecentric :
-  forall (Hx Hy Px Py w v0 v1 mf EPL EPD objR objk objz apv : R) (pos : list R) 
-         (pol : string) (upol : bool)
+  forall (Hx Hy Px Py w v0 v1 mf EPL EPD objR objk objz n0 apv : R) 
+         (pos : list R) (pol : string) (upol : bool)
          (r : T ROps * T ROps * T ROps * T ROps * T ROps * T ROps * T ROps * T ROps),
        k_rg_generate ROps Hx Hy Px Py w v0 v1 mf false "object_height" true EPL EPD pos objR objk
-         objz "objectNA" apv pol upol = Some r ->
-       (0 < apv < 1)%R ->
+         objz "objectNA" n0 apv pol upol = Some r ->
+       (0 < apv / n0 < 1)%R ->
        r_x r = (mf * Hx)%R /\
        r_y r = (mf * Hy)%R /\
        r_z r = (k_std_sag ROps (mf * Hx) (mf * Hy) objR objk + objz)%R /\
@@ -135,11 +132,12 @@ Theorem C03_launch_telecentric :
        r_i r = 1%R /\
        r_w r = w /\
        (Px = 0%R -> Py = 0%R -> r_L r = 0%R /\ r_M r = 0%R /\ r_N r = 1%R) /\
-       (Px = 0%R -> Py = 1%R -> v1 = 0%R -> r_L r = 0%R /\ r_M r = apv) /\
-       r_L r = (r_N r * (Px * (1 - v0)) * (apv / sqrt (1 - apv * apv)))%R /\
-       r_M r = (r_N r * (Py * (1 - v1)) * (apv / sqrt (1 - apv * apv)))%R.
+       (Px = 0%R -> Py = 1%R -> v1 = 0%R -> r_L r = 0%R /\ (n0 * r_M r)%R = apv) /\
+       r_L r = (r_N r * (Px * (1 - v0)) * (apv / n0 / sqrt (1 - apv / n0 * (apv / n0))))%R /\
+       r_M r = (r_N r * (Py * (1 - v1)) * (apv / n0 / sqrt (1 - apv / n0 * (apv / n0))))%R.
 Proof. exact launch_telecentric. Qed.
 Print Assumptions C03_launch_telecentric.
+
 
 Theorem C03_samplings_counts :
   forall (O : Ops) (n : Z) (vx vy : T O),
